@@ -12,7 +12,7 @@ import os
 import sys
 import time
 
-from .kernel import EventLog, Probes, substream, derive_seed, SimCrash, SimInterrupt, stable_hash
+from .kernel import classify_text_diff, EventLog, Probes, substream, derive_seed, SimCrash, SimInterrupt, stable_hash
 from .seams import CrashSeam, SolverSeam, install_hash_salt, set_sym_offset, make_crash_exc
 
 WORLD = None
@@ -527,7 +527,8 @@ class World:
                     "compile-after-fault-differs",
                     f"{what}: the same procedures compile differently after an injected crash at {self.crash.fired_at}: "
                     f"{sig(ref)[0]} vs {sig(out3)[0]} {str(out3[1])[:200] if out3[0]=='exc' else ''}",
-                    {"op": "compile", "sig": "compile-after-fault-differs", "at": (self.crash.fired_at or ["?"])[0]},
+                    {"op": "compile", "sig": "compile-after-fault-differs", "at": (self.crash.fired_at or ["?"])[0],
+                     "diff": classify_text_diff(ref[1], out3[1]) if (ref[0] == "ret" and out3[0] == "ret") else "outcome"},
                 )
             else:
                 self.probes.hit("compile_retry_same")
